@@ -11,15 +11,20 @@ BASELINE = ("cd /repo && /venv/bin/python -m pytest -ra -q -p no:cacheprovider "
 # property -> (design section, technique, level text, level note)
 CLAIMED = {
     'C12': ('5/C12',
-            'TLC model checking of Semaphores.tla (safety + liveness) and '
-            'spec->code replay of every TLC transition into the real class',
+            'TLC model checking of Semaphores.tla (safety + liveness), '
+            'spec->code replay of every TLC transition into the real class and '
+            'code->spec trace validation (Semaphores_Trace.tla, linearizability) of '
+            'threaded runs under free interleavings',
             'TLC exhaustively checks the capacity equation, sequential tokens, '
             'non-blocking raise, rejected releases and (under fairness) that no '
             'acquirer blocks forever, for capacities 1..3, 2-3 tags, 2-3 blocking '
             'threads; every explored transition is then replayed into the real '
             'SlidingWindowSemaphore (sequentially and with really blocked threads '
             'under the deterministic runtime) and results, capacity and the set of '
-            'blocked threads are compared with the model.',
+            'blocked threads are compared with the model; 2-4 real threads with random '
+            'scripts run under random/PCT schedules (a scheduling point at every lock '
+            'operation inside the semaphore) and TLC checks that each execution has a '
+            'linearization in the specification.',
             'bounded constants (tokens per tag <= 3/4); CPython FIFO condition '
             'notification; TLC, the cooperative runtime; permits at quiescence of '
             'end-to-end runs via ObsTrace'),
@@ -39,14 +44,18 @@ CLAIMED = {
 
 CLAIMED['C16'] = ('5/C16',
     'TLC model checking of DeferQueue.tla over all delivery histories + '
-    'replay of every explored history into the real DeferQueue',
+    'replay of every explored history into the real DeferQueue + TLC trace validation '
+    '(DeferQueue_Trace.tla) of random legal histories at larger geometries',
     'TLC enumerates every delivery history the download loop can produce '
     '(disjoint parts, attempts restarting at the part start, arbitrary cuts '
     'and interleavings) for several small geometries and checks in-order/'
     'exactly-once/as-soon-as-contiguous/all-written; every explored history '
     'is replayed into the real DeferQueue and the writes (offset, bytes) it '
-    'returns are compared with the model.',
-    'bounded geometry (object <= 8 positions, <= 3 parts, <= 3 attempts); '
+    'returns are compared with the model; for 4-6 parts random legal histories are fed '
+    'to the real queue and TLC checks both the legality of the history and the returned '
+    'writes (DeferQueue_Trace.tla); non-seekable downloads end to end (ObsTrace, '
+    'Download_Trace).',
+    'exhaustive geometry bounded (object <= 8 positions, <= 3 parts, <= 3 attempts); '
     'request_writes atomic under _io_submit_lock')
 
 
@@ -54,9 +63,13 @@ _E2E_NOTE = ('bounded scenario sizes (objects <= 13 positions, <= 4 transfers); 
              'explored by seeded random/PCT priorities and one-deviation systematic '
              'search, not exhaustively; the cooperative runtime switches threads only at '
              'scheduling points; fake S3 transport behind a real botocore client')
-_E2E_TECH = ('TLC trace validation (ObsTrace.tla over Obs.tla/Props.tla) of executions of the '
-             'real TransferManager recorded under a deterministic scheduler with fault, '
-             'cancel and schedule sweeps')
+_E2E_TECH = ('TLC model checking of the design-level models Pipeline.tla / Download.tla (clauses of '
+             'Props.tla as invariants, termination under fairness) + TLC trace validation of '
+             'executions of the real TransferManager recorded under a deterministic scheduler '
+             'with fault, cancel and schedule sweeps: monitor layer (ObsTrace.tla over '
+             'Obs.tla/Props.tla) for all executions, action-level conformance '
+             '(Pipeline_Trace.tla / Download_Trace.tla) for the executions inside the models\' '
+             'scope')
 
 
 def _e2e(pid, what):
@@ -64,7 +77,13 @@ def _e2e(pid, what):
                     'Every recorded execution of the real code is replayed by TLC event by '
                     'event into the observable-state specification Obs.tla and every clause '
                     'of the property in Props.tla is evaluated in every state of the trace. '
-                    + what, _E2E_NOTE)
+                    'The same clauses are invariants of the TLA+ models of the upload pipeline '
+                    '(Pipeline.tla) and of the ranged download pipeline (Download.tla: path, '
+                    'seekable and non-seekable destinations), which TLC checks exhaustively '
+                    'for small constants, and recorded executions of single uploads / puts / '
+                    'deletes / ranged downloads must be behaviours of those models, event by '
+                    'event (each logged event = the model action of the logging thread with '
+                    'the logged values). ' + what, _E2E_NOTE)
 
 
 _e2e('C01', 'Families: all source kinds x sizes around k*chunk and the threshold x schedules, '
@@ -100,8 +119,9 @@ _e2e('C18', 'Mixes of 2-3 transfers with per-transfer faults/cancels followed by
             'returns; fault-free neighbours must succeed with their own C01-C03 clauses.')
 
 CLAIMED['C13'] = ('5/C13',
-    'TLC model checking of Bandwidth.tla (exhaustive tiny + simulation) and TLC trace '
-    'validation (Bandwidth_Trace.tla) of real limited streams run in virtual time',
+    'TLC model checking of Bandwidth.tla (exhaustive tiny + simulation), TLC trace '
+    'validation (Bandwidth_Trace.tla) of real limited streams run in virtual time and TLC '
+    'evaluation (Rate_Trace.tla) of end-to-end transfers through a throttled manager',
     'Bandwidth.tla specifies the leaky bucket in integer byte-times with an integer envelope '
     'of the float moving average; TLC checks the window-rate, one-wait, never-delayed and '
     'bookkeeping clauses exhaustively for 2 streams and by simulation for 3 streams with '
@@ -111,8 +131,9 @@ CLAIMED['C13'] = ('5/C13',
     'the specification and the clauses are evaluated on the reconstructed history. Two '
     'genuine defects (D5, D10) are listed as known findings.',
     'max_rate = 1 byte per virtual second (exact floats); envelope instead of digit-exact '
-    'EMA; burst allowance 3*(threshold+max read) per stream; end-to-end manager wrapping not '
-    'yet exercised')
+    'EMA; burst allowance 3*(threshold+max read) per stream; end to end: 1-6 MiB uploads '
+    'and downloads through a real TransferManager in virtual time, both checksum modes '
+    '(window clause on every pair of reads, Rate_Trace.tla)')
 CLAIMED['C14'] = ('5/C14',
     'TLC model checking of PartPlan.tla on a scaled domain, Apalache symbolic check at real '
     'scale, TLC trace validation of every real planning function (scaled exhaustively, real '
@@ -152,7 +173,8 @@ CLAIMED['C19'] = ('5/C19',
     'future and ProcessPoolDownloader wiring run as cooperative threads; every event of a run '
     'must be the spec action of that thread with the logged values, the real directory must '
     'agree with the spec file system, and the C19 clauses are invariants of the trace spec.',
-    'no real OS processes / pickling / multiprocessing manager; each monitor call atomic; '
+    'no real OS processes / pickling / multiprocessing manager; monitor calls atomic in half '
+    'of the schedules and interleaving at the monitor\'s locks in the other half; '
     'zero-size objects excluded (allocate(…, 0) fails on Linux)')
 
 CLAIMED['C20'] = ('5/C20',
